@@ -44,8 +44,14 @@ static enum eventloop_return handle_events(struct eventloop_epoll *loop, int num
 			return EL_ABORT_LOOP;
 		}
 	}
+	loop->pending_events = events;
+	loop->num_pending_events = num_events;
 	for (int i = 0; i < num_events; ++i) {
 		struct io_event *ev = events[i].data.ptr;
+		if (unlikely(ev == NULL)) {
+			/* Removed from the loop by a callback earlier in this batch. */
+			continue;
+		}
 		loop->current_ev = ev;
 
 		if (unlikely((events[i].events & ~(EPOLLIN | EPOLLOUT)) != 0)) {
@@ -92,6 +98,8 @@ int eventloop_epoll_init(void *this_ptr)
 	}
 
 	loop->current_ev = NULL;
+	loop->pending_events = NULL;
+	loop->num_pending_events = 0;
 	return 0;
 }
 
@@ -110,9 +118,10 @@ int eventloop_epoll_run(void *this_ptr, const int *go_ahead)
 		int num_events =
 		    epoll_wait(loop->epoll_fd, events, CONFIG_MAX_EPOLL_EVENTS, -1);
 
-		if (unlikely(handle_events(loop, num_events, events) == EL_ABORT_LOOP)) {
+		enum eventloop_return ret = handle_events(loop, num_events, events);
+		loop->num_pending_events = 0;
+		if (unlikely(ret == EL_ABORT_LOOP)) {
 			return -1;
-			break;
 		}
 	}
 	return 0;
@@ -141,5 +150,14 @@ void eventloop_epoll_remove(void *this_ptr, const struct io_event *ev)
 	epoll_ctl(loop->epoll_fd, EPOLL_CTL_DEL, ev->sock, NULL);
 	if (loop->current_ev == ev) {
 		loop->current_ev = NULL;
+	}
+	/*
+	 * Events already harvested by epoll_wait() still refer to this io_event, which the
+	 * caller is about to release. Make sure they are not delivered anymore.
+	 */
+	for (int i = 0; i < loop->num_pending_events; ++i) {
+		if (loop->pending_events[i].data.ptr == ev) {
+			loop->pending_events[i].data.ptr = NULL;
+		}
 	}
 }
